@@ -601,6 +601,292 @@ Proof.
         list_norm. rewrite ?app_nil_r. reflexivity. }
 Qed.
 
+(* ---- display_span ------------------------------------------------------------------------------ *)
+
+Lemma valid_span_unpack : forall s a b, fmt_valid_span s a b = true ->
+  a <= b /\ b <= length s /\ is_boundary s a = true /\ is_boundary s b = true.
+Proof.
+  intros s a b H. unfold fmt_valid_span in H.
+  apply andb_true_iff in H. destruct H as [H Bb].
+  apply andb_true_iff in H. destruct H as [H Ba].
+  apply andb_true_iff in H. destruct H as [H1 H2].
+  apply Nat.leb_le in H1. apply Nat.leb_le in H2. auto.
+Qed.
+
+(* the code (as found and as repaired) always renders from the line holding the byte before `start`
+   to the line holding the byte before `end` *)
+Theorem display_span_spec : forall w fixA s a b,
+  lf_cuts s -> s <> [] -> fmt_valid_span s a b = true ->
+  display_span w fixA s a b = ROk (spec_span_at w s a b (impl_line s a) (impl_line s b)).
+Proof.
+  intros w fixA s a b Hcut Hs Hv.
+  destruct (valid_span_unpack s a b Hv) as (Hab & Hb & Ba & Bb).
+  unfold display_span.
+  assert (Hl : (length s =? 0) = false) by (apply Nat.eqb_neq; destruct s; [congruence|cbn; lia]).
+  rewrite Hl, andb_false_r. rewrite (lines_full_lf_cuts s Hcut). cbn [fbind].
+  assert (Hne : split_incl s <> []) by (apply split_incl_nonempty; exact Hs).
+  destruct (locate_span_char (split_incl s) a b Hne) as (i & j & Hij & Hj & Hia & Hjb & Hloc).
+  { rewrite concat_split_incl. lia. }
+  rewrite Hloc. cbn [fbind fst snd].
+  rewrite render_located_spec by assumption.
+  rewrite <- (holds_impl_line s i a) by (unfold nlines; assumption || lia).
+  rewrite <- (holds_impl_line s j b) by (unfold nlines; assumption).
+  reflexivity.
+Qed.
+
+Lemma firstn_S_nth : forall (A : Type) (d : A) (l : list A) k, k < length l ->
+  firstn (S k) l = firstn k l ++ [nth k l d].
+Proof.
+  intros A d. induction l as [|x r IH]; intros k Hk; [cbn in Hk; lia|].
+  destruct k as [|k]; [reflexivity|]. rewrite !firstn_cons. cbn [nth]. cbn [length] in Hk. rewrite (IH k) by lia. reflexivity.
+Qed.
+
+Lemma last_line_count : forall s, s <> [] -> count_lf (firstn (length s - 1) s) = nlines s - 1.
+Proof.
+  intros s Hs. pose proof (split_incl_nonempty s Hs) as Hne.
+  pose proof (split_incl_ok s) as Hok. unfold nlines.
+  assert (Hn : 0 < length (split_incl s)) by (destruct (split_incl s); [congruence|cbn; lia]).
+  rewrite <- (concat_split_incl s) at 2.
+  apply count_in_line; [exact Hok|lia|].
+  pose proof (off_lt_S (split_incl s) (length (split_incl s) - 1) Hok ltac:(lia)) as Hlt.
+  replace (S (length (split_incl s) - 1)) with (length (split_incl s)) in * by lia.
+  rewrite (off_all (split_incl s) (length (split_incl s))) in * by lia.
+  rewrite concat_split_incl in *. lia.
+Qed.
+
+Lemma impl_line_cursor : forall s a, s <> [] -> a <= length s -> starts_at_line_start s a = false ->
+  impl_line s a = cursor_line s a.
+Proof.
+  intros s a Hs Ha Hx. unfold impl_line, cursor_line.
+  assert (Hlen : 0 < length s) by (destruct s; [congruence|cbn; lia]).
+  destruct (a =? 0) eqn:E0.
+  - apply Nat.eqb_eq in E0. subst a. apply Nat.ltb_lt in Hlen. rewrite Hlen. reflexivity.
+  - apply Nat.eqb_neq in E0. destruct (a <? length s) eqn:El.
+    + apply Nat.ltb_lt in El. unfold line_idx.
+      assert (Hfa : firstn a s = firstn (a - 1) s ++ [nth (a - 1) s 0%N]).
+      { rewrite <- firstn_S_nth by lia. f_equal. lia. }
+      rewrite Hfa, count_lf_app.
+      unfold starts_at_line_start in Hx.
+      assert (H1 : (0 <? a) = true) by (apply Nat.ltb_lt; lia).
+      assert (H2 : (a <? length s) = true) by (apply Nat.ltb_lt; lia).
+      rewrite H1, H2 in Hx. cbn [andb] in Hx.
+      assert (H0 : count_lf [nth (a - 1) s 0%N] = 0).
+      { unfold count_lf. cbn [filter]. unfold is_lfb. rewrite Hx. reflexivity. }
+      rewrite H0. lia.
+    + apply Nat.ltb_ge in El. assert (a = length s) by lia. subst a. unfold line_idx.
+      apply last_line_count. exact Hs.
+Qed.
+
+(* outside the line-start class the rows are the ones the statement asks for *)
+Theorem display_span_rows : forall w fixA s a b,
+  lf_cuts s -> s <> [] -> fmt_valid_span s a b = true -> starts_at_line_start s a = false ->
+  display_span w fixA s a b = ROk (spec_span w s a b).
+Proof.
+  intros w fixA s a b Hcut Hs Hv Hx.
+  destruct (valid_span_unpack s a b Hv) as (Hab & Hb & Ba & Bb).
+  rewrite display_span_spec by assumption.
+  unfold spec_span. destruct s as [|x r] eqn:Es; [congruence|]. rewrite <- Es in *.
+  unfold first_line, last_line.
+  rewrite (impl_line_cursor s a) by (assumption || lia).
+  destruct (a <? b) eqn:Elt.
+  - apply Nat.ltb_lt in Elt. unfold impl_line at 1.
+    replace (b =? 0) with false by (symmetry; apply Nat.eqb_neq; lia). reflexivity.
+  - apply Nat.ltb_ge in Elt. assert (b = a) by lia. subst b.
+    rewrite (impl_line_cursor s a) by (assumption || lia). reflexivity.
+Qed.
+
+Theorem display_span_empty_fixed : forall w a b, display_span w true [] a b = ROk (spec_span w [] a b).
+Proof. reflexivity. Qed.
+
+(* ---- display_position ---------------------------------------------------------------------------- *)
+
+Lemma lines_ok_concat_pos : forall L, lines_ok L -> L <> [] -> 0 < length (concat L).
+Proof.
+  intros L Hok Hne. destruct Hok as [|l r Hl _ _ _]; [congruence|].
+  cbn [concat]. rewrite app_length. destruct l; [congruence|cbn [length]; lia].
+Qed.
+
+Lemma pos_loop_char : forall w L, lines_ok L -> forall idx pos p total fixC,
+  L <> [] -> total = pos + length (concat L) -> pos <= p <= total -> (p < total \/ fixC = true) ->
+  exists i, i < length L /\ pos + off L i <= p /\
+    (p < pos + off L (S i) \/ (p = total /\ S i = length L)) /\
+    pos_loop w fixC total L idx pos p =
+      fbind (ceil_log10 (idx + i + 1)) (fun d =>
+      fbind (split_at (nth i L []) (p - (pos + off L i))) (fun pr =>
+      snippet_single_pos w d (idx + i) (vis (fst pr)) (vis (snd pr)))).
+Proof.
+  intros w L Hok. induction Hok as [|l r Hl Hpre Hcnt Hok IH]; intros idx pos p total fixC Hne Ht Hp Hc; [congruence|].
+  cbn [pos_loop]. cbn [concat] in Ht. rewrite app_length in Ht.
+  destruct (p <? pos + length l) eqn:E1.
+  - apply Nat.ltb_lt in E1. cbn [orb]. exists 0. split; [cbn; lia|].
+    rewrite off_0, off_cons, off_0, !Nat.add_0_r. split; [lia|]. split; [left; lia|].
+    rewrite csub_ok by lia. reflexivity.
+  - apply Nat.ltb_ge in E1. cbn [orb]. destruct r as [|l2 r2].
+    + cbn [concat length] in Ht. assert (Hpt : p = total) by lia.
+      destruct Hc as [Hc|Hc]; [lia|]. subst fixC.
+      replace (pos + length l =? total) with true by (symmetry; apply Nat.eqb_eq; lia). cbn [andb].
+      exists 0. split; [cbn; lia|]. rewrite off_0, !Nat.add_0_r. split; [lia|]. split; [right; split; [exact Hpt|reflexivity]|].
+      rewrite csub_ok by lia. reflexivity.
+    + pose proof (lines_ok_concat_pos (l2 :: r2) Hok ltac:(discriminate)) as Hpos.
+      replace (pos + length l =? total) with false by (symmetry; apply Nat.eqb_neq; lia).
+      rewrite andb_false_r.
+      destruct (IH (S idx) (pos + length l) p total fixC ltac:(discriminate) ltac:(lia) ltac:(lia) Hc)
+        as (i & Hi & Hlo & Hhi & Heq).
+      exists (S i). split; [cbn [length] in *; lia|].
+      rewrite (off_cons l (l2 :: r2) i), (off_cons l (l2 :: r2) (S i)). cbn [nth].
+      split; [lia|]. split.
+      * destruct Hhi as [Hhi|[Hhi1 Hhi2]]; [left; lia|right; split; [exact Hhi1|cbn [length] in *; lia]].
+      * rewrite Heq. replace (S idx + i) with (idx + S i) by lia.
+        replace (pos + length l + off (l2 :: r2) i) with (pos + (length l + off (l2 :: r2) i)) by lia.
+        reflexivity.
+Qed.
+
+Lemma valid_pos_unpack : forall s p, fmt_valid_pos s p = true -> p <= length s /\ is_boundary s p = true.
+Proof.
+  intros s p H. unfold fmt_valid_pos in H. apply andb_true_iff in H. destruct H as [H1 H2].
+  apply Nat.leb_le in H1. auto.
+Qed.
+
+(* a Position inside the input (and, with the repair, at its end) shows the row the statement asks for *)
+Theorem display_position_rows : forall w fixC s p,
+  lf_cuts s -> s <> [] -> fmt_valid_pos s p = true -> (p < length s \/ fixC = true) ->
+  display_position w fixC s p = ROk (spec_pos w s p).
+Proof.
+  intros w fixC s p Hcut Hs Hv Hc. destruct (valid_pos_unpack s p Hv) as [Hp Bp].
+  unfold display_position. rewrite (lines_full_lf_cuts s Hcut). cbn [fbind].
+  pose proof (split_incl_ok s) as Hok.
+  pose proof (split_incl_nonempty s Hs) as Hne.
+  assert (HsL : concat (split_incl s) = s) by apply concat_split_incl.
+  destruct (pos_loop_char w (split_incl s) Hok 0 0 p (length s) fixC Hne) as (i & Hi & Hlo & Hhi & Heq).
+  { rewrite HsL. reflexivity. } { lia. } { exact Hc. }
+  cbn [Nat.add] in *. rewrite Heq. clear Heq.
+  rewrite ceil_log10_ndigits. cbn [fbind].
+  assert (HS : off (split_incl s) (S i) = off (split_incl s) i + length (nth i (split_incl s) []))
+    by (apply off_S; exact Hi).
+  assert (Hup : p <= off (split_incl s) (S i)).
+  { destruct Hhi as [Hhi|[Hhi1 Hhi2]]; [lia|]. rewrite Hhi2, off_all, HsL by lia. lia. }
+  rewrite split_at_ok; [|apply line_boundary; [exact Hi|lia|rewrite HsL; exact Bp]|lia].
+  cbn [fbind fst snd]. rewrite snippet_single_pos_ok.
+  unfold spec_pos. destruct s as [|x r] eqn:Es; [congruence|]. rewrite <- Es in *.
+  assert (Hcl : cursor_line s p = i).
+  { unfold cursor_line. destruct Hhi as [Hhi|[Hhi1 Hhi2]].
+    - assert (Hlt : p < length s).
+      { pose proof (off_mono (split_incl s) (S i) (length (split_incl s)) ltac:(lia)) as Hm.
+        rewrite (off_all (split_incl s) (length (split_incl s))), HsL in Hm by lia. lia. }
+      apply Nat.ltb_lt in Hlt. rewrite Hlt. unfold line_idx. rewrite <- HsL at 1.
+      apply count_in_line; [exact Hok|exact Hi|lia].
+    - subst p. rewrite Nat.ltb_irrefl. unfold nlines. lia. }
+  rewrite Hcl. unfold spec_pos_at.
+  rewrite (row_single s p p i) by (unfold nlines; lia || assumption).
+  cbn [r_before]. rewrite Nat.sub_diag. cbn [firstn]. rewrite vis_nil. unfold nth_line.
+  replace (i + 1) with (S i) by lia. reflexivity.
+Qed.
+
+(* the code as found prints nothing at end of input *)
+Lemma pos_loop_nothing : forall w L idx pos p total, pos + length (concat L) <= p ->
+  pos_loop w false total L idx pos p = ROk [].
+Proof.
+  intros w. induction L as [|l r IH]; intros idx pos p total Hp; [reflexivity|].
+  cbn [pos_loop]. cbn [concat] in Hp. rewrite app_length in Hp.
+  replace (p <? pos + length l) with false by (symmetry; apply Nat.ltb_ge; lia).
+  cbn [orb andb]. apply IH. lia.
+Qed.
+
+Theorem display_position_eof_nothing : forall w s, lf_cuts s -> display_position w false s (length s) = ROk [].
+Proof.
+  intros w s Hcut. unfold display_position. rewrite (lines_full_lf_cuts s Hcut). cbn [fbind].
+  apply pos_loop_nothing. rewrite concat_split_incl. lia.
+Qed.
+
+Theorem display_position_empty : forall w fixC p, display_position w fixC [] p = ROk (spec_pos w [] p).
+Proof. intros w fixC p. reflexivity. Qed.
+
+(* ---- C14, stated for UTF-8 strings `encode cs` --------------------------------------------------- *)
+
+(* totality, code as found: every valid span of a non-empty input *)
+Theorem total_span_as_found : forall (w : char -> nat) cs a b,
+  valid_str cs -> encode cs <> [] -> fmt_valid_span (encode cs) a b = true ->
+  exists ps, display_span w false (encode cs) a b = ROk ps.
+Proof.
+  intros w cs a b _ Hne Hv. eexists. apply display_span_spec; [apply encode_lf_cuts|exact Hne|exact Hv].
+Qed.
+
+(* totality, repaired code (proposed_fixes/C14-F4a.diff): every valid span of every input *)
+Theorem total_span_repaired : forall (w : char -> nat) cs a b,
+  valid_str cs -> fmt_valid_span (encode cs) a b = true ->
+  exists ps, display_span w true (encode cs) a b = ROk ps.
+Proof.
+  intros w cs a b _ Hv. destruct (encode cs) as [|x r] eqn:E.
+  - eexists. reflexivity.
+  - rewrite <- E in *. eexists. apply display_span_spec; [apply encode_lf_cuts|congruence|exact Hv].
+Qed.
+
+(* totality of display_position, as found and repaired, every input *)
+Theorem total_position : forall (w : char -> nat) fixC cs p,
+  valid_str cs -> fmt_valid_pos (encode cs) p = true ->
+  exists ps, display_position w fixC (encode cs) p = ROk ps.
+Proof.
+  intros w fixC cs p _ Hv. destruct (encode cs) as [|x r] eqn:E.
+  - eexists. reflexivity.
+  - rewrite <- E in *. destruct (valid_pos_unpack _ _ Hv) as [Hp _].
+    destruct fixC.
+    + eexists. apply display_position_rows; [apply encode_lf_cuts|congruence|exact Hv|right; reflexivity].
+    + destruct (Nat.eq_dec p (length (encode cs))) as [->|Hn].
+      * eexists. apply display_position_eof_nothing. apply encode_lf_cuts.
+      * eexists. apply display_position_rows; [apply encode_lf_cuts|congruence|exact Hv|left; lia].
+Qed.
+
+(* what the code shows for every valid span (as found and repaired): the rows from the line holding the
+   byte before `start` to the line holding the byte before `end` *)
+Theorem span_lines_of_the_code : forall (w : char -> nat) fixA cs a b,
+  valid_str cs -> encode cs <> [] -> fmt_valid_span (encode cs) a b = true ->
+  display_span w fixA (encode cs) a b
+  = ROk (spec_span_at w (encode cs) a b (impl_line (encode cs) a) (impl_line (encode cs) b)).
+Proof.
+  intros w fixA cs a b _ Hne Hv. apply display_span_spec; [apply encode_lf_cuts|exact Hne|exact Hv].
+Qed.
+
+(* rows, numbers, texts and marker columns are the demanded ones outside the line-start class *)
+Theorem rows_span_partial : forall (w : char -> nat) fixA cs a b,
+  valid_str cs -> encode cs <> [] -> fmt_valid_span (encode cs) a b = true ->
+  starts_at_line_start (encode cs) a = false ->
+  display_span w fixA (encode cs) a b = ROk (spec_span w (encode cs) a b).
+Proof.
+  intros w fixA cs a b _ Hne Hv Hx. apply display_span_rows; [apply encode_lf_cuts|exact Hne|exact Hv|exact Hx].
+Qed.
+
+Theorem rows_position_partial : forall (w : char -> nat) fixC cs p,
+  valid_str cs -> fmt_valid_pos (encode cs) p = true ->
+  p < length (encode cs) \/ fixC = true ->
+  display_position w fixC (encode cs) p = ROk (spec_pos w (encode cs) p).
+Proof.
+  intros w fixC cs p _ Hv Hc. destruct (encode cs) as [|x r] eqn:E.
+  - reflexivity.
+  - rewrite <- E in *. apply display_position_rows; [apply encode_lf_cuts|congruence|exact Hv|exact Hc].
+Qed.
+
+Theorem position_eof_as_found : forall (w : char -> nat) cs,
+  valid_str cs -> display_position w false (encode cs) (length (encode cs)) = ROk [].
+Proof. intros w cs _. apply display_position_eof_nothing. apply encode_lf_cuts. Qed.
+
+(* every member of the line-start class deviates: the first row shown is the line before the demanded one *)
+Theorem linestart_off_by_one : forall cs a,
+  valid_str cs -> a <= length (encode cs) -> starts_at_line_start (encode cs) a = true ->
+  cursor_line (encode cs) a = S (impl_line (encode cs) a).
+Proof.
+  intros cs a _ Ha Hx. set (s := encode cs) in *. unfold starts_at_line_start in Hx.
+  apply andb_true_iff in Hx. destruct Hx as [Hx H3]. apply andb_true_iff in Hx. destruct Hx as [H1 H2].
+  apply Nat.ltb_lt in H1. unfold cursor_line, impl_line. rewrite H2. apply Nat.ltb_lt in H2.
+  replace (a =? 0) with false by (symmetry; apply Nat.eqb_neq; lia).
+  unfold line_idx.
+  assert (Hfa : firstn a s = firstn (a - 1) s ++ [nth (a - 1) s 0%N]).
+  { rewrite <- firstn_S_nth by lia. f_equal. lia. }
+  rewrite Hfa, count_lf_app.
+  assert (H0 : count_lf [nth (a - 1) s 0%N] = 1).
+  { unfold count_lf. cbn [filter]. unfold is_lfb. rewrite H3. reflexivity. }
+  rewrite H0. lia.
+Qed.
+
 (* ---- witnesses: where the code as found deviates from the statement ------------------------- *)
 
 Definition w1 : char -> nat := fun _ => 1.
